@@ -95,7 +95,7 @@ def main():
              "", "| seeded change | breaks | what it is | base: own check | final: caught by |", "|---|---|---|---|---|"]
     for m in sorted(rows, key=lambda x: x["id"]):
         base = m["runs"].get("eval-base.json")
-        final = m["runs"].get("eval-final4.json") or m["runs"].get("eval-final3.json") or m["runs"].get("eval-final2.json") or m["runs"].get("eval-final.json") or m["runs"].get("eval.json") or m["runs"].get("eval-new.json")
+        final = m["runs"].get("eval-session3.json") or m["runs"].get("eval-final4.json") or m["runs"].get("eval-final3.json") or m["runs"].get("eval-final2.json") or m["runs"].get("eval-final.json") or m["runs"].get("eval.json") or m["runs"].get("eval-new.json")
         own = m["breaks_property"] + "/quick"
         b = "-" if not base else ("caught" if own in (base.get("caught_by") or []) else "missed")
         f = "-" if not final else (", ".join(c.replace("/quick", "").replace("/thorough", " (thorough)") for c in (final.get("caught_by") or [])) or "**none**")
